@@ -209,5 +209,6 @@ func init() {
 			}
 			econst.CheckNamed(run, p, "CONST", names...)
 		}
+		arithmeticFoundations(c)
 	}
 }
